@@ -40,6 +40,8 @@ RULE = (
     "engine carrying boots or time = 2^31-1; unauthenticated messages of type Response/Get/Tr"
     "ap with an error-status (bindings echoed or absent, flags 0/4/1 with zero or kept digest"
     ") are part of the corpus."
+    " Passive attacks on clients that are 25 hours / 40 days old (virtual time): discovery pr"
+    "obes answered as engine B, everything else left alone."
 )
 ASSUMPTIONS = [
     "the attacker knows the wire format and everything on the wire, but none of the victim's keys",
